@@ -272,7 +272,9 @@ class HyperVStorageKeyTableEntry:
     def __init__(self, table: HyperVStorageKeyTable, offset: int):
         self.table = table
         self.offset = offset
-        self.header = c_hyperv.HyperVStorageKeyTableEntryHeader(table.raw[offset:])
+        # Only hand over the bytes of the header, parsing a memoryview copies all of it
+        header_size = len(c_hyperv.HyperVStorageKeyTableEntryHeader)
+        self.header = c_hyperv.HyperVStorageKeyTableEntryHeader(table.raw[offset : offset + header_size])
         self.children: dict[str, HyperVStorageKeyTableEntry] = {}
 
     def __getitem__(self, key: str) -> HyperVStorageKeyTableEntry:
